@@ -1608,6 +1608,8 @@ pub fn run_c10(ctx: &Ctx) -> Report {
     let sum = run_harnesses(ctx, if ctx.quick() { &ALL_LARGE } else { &ALL_XL }, &["c10."], &mut rep, false);
     fill_report(&mut rep, &sum, "C10 histories");
     super::args::run_arg_sweep(ctx, &mut rep, true);
+    #[cfg(feature = "likelysubtags")]
+    super::conc::run_family(ctx, "mutate", "c10.schedule", &mut rep);
     rep.rule = "E3: every state reachable from default() and from six parser-built values under the menus of five harnesses (H-id, H-u, H-t, H-x, H-cross: every public mutator with valid, boundary and invalid arguments); after every call the result (Ok/Err/bool) is compared with the set/map model and an Err must leave the value unchanged; in every state every getter, is_empty, has_*, to_string and a re-parse are compared with the model. E4 (arguments): every byte string of length <= 2 and every boundary-class string up to length 9 as the textual argument of every getter/setter, compared with the model's validation and normalisation. distinct_nontrivial = distinct model values reached.".into();
     rep.assumptions = vec![
         "reference value model of DESIGN §3.2 (sorted sets, sorted multiset, ordered maps)".into(),
